@@ -490,22 +490,23 @@ def ob_roundtrip(sim, mode, dynamic, variant=None):
                                   f"a trial quantity of the last solve is committed", cex=dict(history=hist, key=key), signature=f"roundtrip:{sim}:resave:{key}", replay=dict(confirmed=True, max_diff=e))
         # (3d) a query is a read: restore an iteration, ask for every advertised result, save again without solving: what is stored is that iteration again
         for it in (0, 1):
-            s.Set_Iter(it)
+            # the queries name the iteration themselves (`Result(name, iter=it)`), from another current iteration: they restore it, then read
+            s.Set_Iter(2)
             for name_ in s.Results_Available():           # named results only (assembling the system is how the trial fields are computed: not a query)
                 try:
-                    s.Result(name_)
+                    s.Result(name_, iter=it)
                     s.Result(name_, nodeValues=False)
                 except Exception:
                     pass
             s.Save_Iter()
-            hist.append(f"Set_Iter({it}); every Result(); Save_Iter")
+            hist.append(f"Set_Iter(2); every Result(name, iter={it}); Save_Iter")
             again = _deep_results(s, -1)
             for key, x in saved_results[it].items():
                 if isinstance(x, np.ndarray) and x.dtype.kind in "fc" and x.size > 1:
                     y = again.get(key)
                     if not (isinstance(y, np.ndarray) and y.shape == x.shape and np.array_equal(x, y)):
                         e = float(np.abs(np.asarray(y) - x).max()) if isinstance(y, np.ndarray) and y.shape == x.shape else float("inf")
-                        raise Refuted(f"{sim}{'/' + variant if variant else ''}/{mode}: Set_Iter({it}), a query of every advertised result, then Save_Iter() (no solve) stores a '{key}' that differs from "
+                        raise Refuted(f"{sim}{'/' + variant if variant else ''}/{mode}: from iteration 2, Result(name, iter={it}) for every advertised result, then Save_Iter() (no solve) stores a '{key}' that differs from "
                                       f"iteration {it} (max difference {e:.3e}): asking for a result changes the state of the simulation", cex=dict(history=hist, key=key), signature=f"roundtrip:{sim}:query:{key}",
                                       replay=dict(confirmed=True, max_diff=e))
         # (4) restore an old iteration, solve and save again: the stored iterations 0..2 are still what they were
